@@ -137,6 +137,16 @@ def run(ctx):
                 bw = rnd.uniform(0.05, 0.9) * gv.fs
                 law("MZM(BW)=BPF(MZM)", np.atleast_2d(MZM(x, u, bias, Vpi, loss, ER, pol, BW=bw).signal) + 10, np.atleast_2d(BPF(o, bw).signal) + 10)
             law("drive-kinds-agree-MZM", MZM(x, 1.25, bias, Vpi, loss, ER, pol).signal, MZM(x, np.full(n, 1.25), bias, Vpi, loss, ER, pol).signal)
+            # another spelling of the selected polarisation: rejected (ValueError), or accepted with the same meaning
+            try:
+                oU = MZM(x, u, bias, Vpi, loss, ER, pol.upper())
+            except ValueError:
+                oU = None
+            if oU is not None:
+                law("MZM-pol-spelling", np.atleast_2d(oU.signal) + 1, np.atleast_2d(o.signal) + 1)
+                if npol == 2:
+                    totU = np.atleast_2d(oU.signal + (oU.noise if oU.noise is not None else 0))
+                    bound("MZM-unselected-polarisation-extinguished", float(np.max(np.abs(totU[1 if pol == "x" else 0]))))
             # on/off ratio = ER
             cw = optical_signal(np.ones(4) * 0.3)
             p_on = MZM(cw, -bias, bias, Vpi, loss, ER).power()
@@ -197,6 +207,13 @@ def run(ctx):
             o = LASER(t, p, lw=lw, df=df)
         P = 10 ** (p / 10 - 3)
         law("LASER-|E|^2=P", np.abs(o.signal) ** 2, np.full(N, P))
+        if lw is None:
+            # the offset term is exp(j 2 pi df t) on the caller's own time vector, whatever its step or origin
+            law("LASER-field=sqrt(P)*exp(j*2pi*df*t)", o.signal + 1, math.sqrt(P) * np.exp(2j * math.pi * df * t) + 1)
+            for t2 in (np.arange(N) * (2 * gv.dt), np.arange(N) * (gv.dt / 4) + 3 * gv.dt, np.linspace(0, (N - 1) * gv.dt * 0.9, N)):
+                with deadline(60):
+                    o2 = LASER(t2, p, df=df)
+                law("LASER-field=sqrt(P)*exp(j*2pi*df*t)", o2.signal + 1, math.sqrt(P) * np.exp(2j * math.pi * df * t2) + 1)
         if lw is None:
             sp = np.abs(np.fft.fft(o.signal))
             idx = int(np.argmax(sp))
